@@ -73,6 +73,13 @@ class AObj:
         return f'AObj<{self.cls.name if self.cls else "?"}>({self.attrs!r})'
 
 
+EVENT_LOG = []
+
+
+def log_event(*ev):
+    EVENT_LOG.append(ev)
+
+
 class AbsRaise(Exception):
     def __init__(self, exc, node, implicit=False, msg=''):
         self.exc = exc
@@ -172,6 +179,7 @@ class AbsInt:
             self._choices = list(pre)
             self._trace = []
             self.depth = 0
+            EVENT_LOG.clear()
             try:
                 v = thunk()
                 out = Outcome('return', v)
@@ -180,6 +188,7 @@ class AbsInt:
             except _Ret as r:      # pragma: no cover
                 out = Outcome('return', r.v)
             out.decisions = list(self._trace)
+            out.log = list(EVENT_LOG)
             results.append(out)
             for i in range(len(pre), len(self._trace)):
                 alt = [d[1] for d in self._trace[:i]] + [not self._trace[i][1]]
@@ -358,6 +367,9 @@ class AbsInt:
             key = self.ev(t.slice, env, m)
             if isinstance(base, ADict) and _hashable_const(key):
                 base.d[key] = v
+                if getattr(base, 'owner', None) is not None:
+                    base.owner.stores.append((key, v, t))
+                    log_event('store', base.owner, key, v)
             elif isinstance(base, dict) and _hashable_const(key):
                 base[key] = v
             elif isinstance(base, AList) and isinstance(key, int) and not base.has_var():
@@ -374,6 +386,7 @@ class AbsInt:
             if isinstance(base, AObj):
                 base.attrs[t.attr] = v
                 base.stores.append((t.attr, v, t))
+                log_event('store', base, t.attr, v)
             else:
                 raise AnalysisError(f'abstract attribute store on {base!r} at line {t.lineno}')
         else:
@@ -927,7 +940,14 @@ class AbsInt:
             key = f.info.qname
             if key in self.summaries:
                 return self.summaries[key](self, args, kwargs, node)
-            return AObj(f.info, {}, name=f.info.name)
+            obj = AObj(f.info, {}, name=f.info.name)
+            o, init = self.p.lookup_method(f.info, '__init__')
+            if init is not None:
+                self.call_function(init, [obj] + list(args), dict(kwargs), node)
+            elif args or kwargs:
+                # tuple/list/exception subclasses etc.: keep the arguments
+                obj.attrs['__args__'] = AList(list(args), 'tuple')
+            return obj
         if isinstance(f, ExtRef):
             key = f.name
             if key in self.summaries:
@@ -1035,14 +1055,20 @@ class AbsInt:
     def method(self, base, name, args, kwargs, node):
         if isinstance(base, ADict):
             if name == 'update':
+                new = {}
                 for a in args:
                     if isinstance(a, ADict):
-                        base.d.update(a.d)
+                        new.update(a.d)
                     elif isinstance(a, dict):
-                        base.d.update(a)
+                        new.update(a)
                     else:
                         raise AnalysisError(f'dict.update with {a!r} at line {node.lineno}')
-                base.d.update(kwargs)
+                new.update(kwargs)
+                base.d.update(new)
+                if getattr(base, 'owner', None) is not None:
+                    for k, v in new.items():
+                        base.owner.stores.append((k, v, node))
+                        log_event('store', base.owner, k, v)
                 return None
             if name == 'get':
                 if _hashable_const(args[0]):
